@@ -232,6 +232,8 @@ impl Components {
 
         let ids: HashSet<_> = env_comps.iter().map(|c| c.id()).collect();
         for id in ids {
+            #[cfg(feature = "verif_hooks")]
+            crate::verif_hooks::observe("components::complete_produced::id", format!("{}:{}", carrier, id));
             // Componentes para el sistema dado
             let components_for_id = env_comps.iter().filter(|c| c.has_id(id));
             // Componentes de producción del servicio
@@ -295,6 +297,8 @@ impl Components {
             .map(Energy::id)
             .collect();
         for id in ids {
+            #[cfg(feature = "verif_hooks")]
+            crate::verif_hooks::observe("components::assign_aux::id", id.to_string());
             let services_for_uses_with_id = self
                 .data
                 .iter()
@@ -370,6 +374,8 @@ impl Components {
 
             // Incorpora nuevos auxiliares con reparto calculado por servicios
             for service in &out_services {
+                #[cfg(feature = "verif_hooks")]
+                crate::verif_hooks::observe("components::assign_aux::out_service", format!("{}:{}", id, service));
                 let values = q_out_frac_by_srv[service]
                     .iter()
                     .zip(aux_tot.iter())
